@@ -5,6 +5,8 @@ import sys
 
 def main():
     sys.setrecursionlimit(10000)
+    from .run import install_api_time_limits
+    install_api_time_limits(600)
     from . import props2
     props2._load_more()
     from . import props5
